@@ -76,7 +76,7 @@ def bits_str(parties):
 
 def analyze(drv, prog, fn="main", dedup=True, consts="-", const_values=None, cap=20.0, stats=None,
             rng=None, queries=("value", "panic", "loc"), vectors=4, extra_assume=None, keep=False,
-            src=None):
+            src=None, use_kissat=True):
     """Compile `prog` with the real compiler and compare with the reference for all inputs.
 
     Returns dict: status in {ok, rejected, compile_error, compiler_panic, shape, timeout},
@@ -146,7 +146,7 @@ def analyze(drv, prog, fn="main", dedup=True, consts="-", const_values=None, cap
         res["sites"] = len(it.sites) - 1
         ref_out = ref.encode(f.ret, value)
         for q in queries:
-            verdict, model, dt, backend = solve.decide(base + qs[q], cap, stats)
+            verdict, model, dt, backend = solve.decide(base + qs[q], cap, stats, use_kissat=use_kissat)
             res["verdicts"][q] = verdict
             if verdict == "sat":
                 parties = inputs.party_values(model)
